@@ -26,8 +26,11 @@ using booster::ptime;
 static std::atomic<int> g_yield_permille(0);
 static std::atomic<long> g_yields(0);
 static thread_local uint64_t t_rng = 0x2545F4914F6CDD1Dull;
-extern "C" void cppcms_verif_yield(char const *)
+static std::atomic<int> g_force_before_handler_us(0);   // the overtake scenario widens the pop-to-run window of the loop
+extern "C" void cppcms_verif_yield(char const *site)
 {
+	int f = g_force_before_handler_us.load(std::memory_order_relaxed);
+	if (f && site[5] == 'b' && site[12] == 'h') { usleep(f); return; }   // "loop.before_handler"
 	int pm = g_yield_permille.load(std::memory_order_relaxed);
 	if (!pm) return;
 	t_rng ^= t_rng << 13; t_rng ^= t_rng >> 7; t_rng ^= t_rng << 17;
@@ -229,6 +232,57 @@ static void object_scenario(rng &r, int reactor)
 	O().count("object_scenarios");
 }
 
+// A descriptor request must never overtake an earlier one, also not one the loop has already taken from its queue:
+// wait A is satisfied by data while its owner cancels (A may deliver success or canceled); the owner then arms wait B on
+// the same descriptor, which nobody cancels: B must stay pending until data arrives and then deliver success.
+static void overtake_scenario(rng &r, int reactor, int iterations)
+{
+	aio::io_service srv(reactor);
+	logbook lb;
+	std::atomic<bool> started(false);
+	std::thread loop([&]() { started = true; srv.run(); });
+	while (!started.load()) sched_yield();
+	int sp[2]; if (socketpair(AF_UNIX, SOCK_STREAM, 0, sp)) { perror("socketpair"); exit(3); }
+	fcntl(sp[0], F_SETFL, O_NONBLOCK);
+	g_force_before_handler_us = 120;
+	struct noop { void operator()() const {} };
+	std::string rp = "{\"scenario\":\"overtake\",\"reactor\":" + std::to_string(reactor) + "}";
+	bool bad = false;
+	for (int it = 0; it < iterations && !bad; it++) {
+		std::atomic<int> da(0), db(0);
+		long ia = lb.add(K_IO_RACE, 0); { ev_handler h = { &lb, ia, &da }; srv.set_io_event(sp[0], aio::io_events::in, h); }
+		if (write(sp[1], "y", 1) != 1) {}
+		usleep(r.below(400));
+		int posts = r.below(3); for (int k = 0; k < posts; k++) srv.post(noop());
+		lb.mark_cancel(ia); srv.cancel_io_events(sp[0]);
+		double t0 = ptime::to_number(ptime::now());
+		while (!da.load()) { sched_yield(); if (ptime::to_number(ptime::now()) - t0 > 60) { O().count("overtake_inconclusive"); bad = true; break; } }
+		if (bad) break;
+		char buf[8]; while (read(sp[0], buf, sizeof buf) > 0) {}
+		usleep(r.below(300));
+		long ib = lb.add(K_IO_READ, 0); { ev_handler h = { &lb, ib, &db }; srv.set_io_event(sp[0], aio::io_events::in, h); }
+		usleep(300 + r.below(300));
+		bool early = db.load();
+		if (write(sp[1], "x", 1) != 1) {}
+		t0 = ptime::to_number(ptime::now());
+		while (!db.load()) { sched_yield(); if (ptime::to_number(ptime::now()) - t0 > 60) { O().viol("aio:handler-never-ran:io_readable", "overtake scenario: the wait armed after a cancel never ran though data arrived", rp); bad = true; break; } }
+		if (bad) break;
+		while (read(sp[0], buf, sizeof buf) > 0) {}
+		int eb = -1; { std::lock_guard<std::mutex> g(lb.m); for (auto const &x : lb.runs) if (x.id == ib) eb = x.err; }
+		O().count("overtake_iterations"); O().count("handlers_registered", 2);
+		if (eb == aio::aio_error::canceled) { O().viol("aio:io-wait-nobody-cancelled-delivered-canceled", "overtake scenario: cancel issued before the wait was armed cancelled it", rp); bad = true; }
+		else if (eb != 0) { O().viol("aio:io-wait-delivered-error", "overtake scenario err=" + std::to_string(eb), rp); bad = true; }
+		else if (early) { O().viol("aio:io-wait-delivered-success-without-event", "overtake scenario", rp); bad = true; }
+	}
+	g_force_before_handler_us = 0;
+	srv.stop(); loop.join();
+	close(sp[0]); close(sp[1]);
+	std::vector<int> count(lb.regs.size(), 0);
+	for (auto const &x : lb.runs) count[x.id]++;
+	if (!bad) for (size_t id = 0; id < count.size(); id++) if (count[id] != 1) { O().viol(count[id] ? "aio:handler-ran-more-than-once:io" : "aio:handler-never-ran:io", "overtake scenario", rp); break; }
+	O().count("overtake_scenarios");
+}
+
 // Two timers expire in the same loop iteration; the first one's handler arms fresh timers and then cancels the second timer
 // (whose handler is already queued, which the caller cannot know). None of the fresh timers was cancelled by anybody.
 static void slot_reuse_scenario(rng &r, int reactor, int far_count)
@@ -326,6 +380,7 @@ int main(int argc, char **argv)
 	for (long long i = 0; i < rounds && O().viol_count < 10; i++) {
 		for (int ri = 0; ri < 3; ri++) {
 			if (mode == "all" || mode == "loop") loop_scenario(r, reactors[ri], r.range(1, (int)a.num("producers", 6)), actions, "");
+			if (mode == "all" || mode == "overtake") overtake_scenario(r, reactors[ri], (int)a.num("overtake", 150));
 			if (mode == "all" || mode == "objects") for (int k = 0; k < 5; k++) object_scenario(r, reactors[ri]);
 			if (mode == "all" || mode == "objects" || mode == "reuse") for (int k = 0; k < 6; k++) slot_reuse_scenario(r, reactors[ri], (int[]){ 0, 50, 400, 900 }[r.below(4)]);
 		}
